@@ -4,7 +4,7 @@
 P=$(readlink -f "$1"); ID=$2; TIER=${3:-quick}
 S=/var/tmp/seedrun-$$
 rm -rf $S; mkdir -p $S; cp -r /repo/src $S/src
-( cd $S && patch -s -p1 -F3 --no-backup-if-mismatch < "$P" ) || { echo "PATCH FAILED"; rm -rf $S; exit 3; }
+( cd $S && patch -s -p1 -F0 --no-backup-if-mismatch < "$P" ) || { echo "PATCH FAILED"; rm -rf $S; exit 3; }
 cd /verif
 VF_REPO=$S/src VF_FOUND_SUFFIX=seed ./check $ID --tier $TIER > $S/out.txt 2>&1
 rc=$?
